@@ -51,13 +51,21 @@ Definition s_k_count := k_count.
 
 Definition i_compare_str := Impl.Compare fold121 lower_str Str.
 Definition i_compare_byt := Impl.Compare fold121 lower_byt Byt.
+Definition i_has_prefix_unicode_str := Impl.hasPrefixUnicode fold121 lower_str Str.
+Definition i_has_prefix_unicode_byt := Impl.hasPrefixUnicode fold121 lower_byt Byt.
+Definition i_trim_prefix_str := Impl.TrimPrefix fold121 lower_str Str.
+Definition i_trim_prefix_byt := Impl.TrimPrefix fold121 lower_byt Byt.
+Definition i_cut_prefix_str := Impl.CutPrefix fold121 lower_str Str.
+Definition i_cut_prefix_byt := Impl.CutPrefix fold121 lower_byt Byt.
+Definition i_contains_kelvin := Impl.contains_kelvin.
 Definition i_index_byte_generic := index_byte_generic.
 Definition i_count_generic := count_generic.
 Definition i_count_simd := count_simd.
 Definition i_index_non_ascii_generic := index_non_ascii_generic.
 
 Extraction "model.ml"
-  i_compare_str i_compare_byt i_index_byte_generic i_count_generic i_count_simd i_index_non_ascii_generic
+  i_compare_str i_compare_byt i_has_prefix_unicode_str i_has_prefix_unicode_byt
+  i_trim_prefix_str i_trim_prefix_byt i_cut_prefix_str i_cut_prefix_byt i_contains_kelvin i_index_byte_generic i_count_generic i_count_simd i_index_non_ascii_generic
   m_case_fold m_fold_map m_fold_map_excl m_to_upper_lower m_lower_str m_lower_byt
   m_decode m_decode_last m_rune_len m_valid_rune m_encode m_rune_count m_valid_utf8
   s_compare s_equal_fold s_index s_contains s_last_index s_has_prefix s_has_suffix
